@@ -92,6 +92,40 @@ class Ctx:
         self.call_sites += calls
 
 
+_ANCHOR_CACHE = {}
+
+
+def vanished_anchors(model):
+    """Attribute names the rule modules refer to (N.selfattr("x") / selfattr("x")) must still be assigned somewhere in the analysed package;
+    a renamed attribute makes the run analysis-broken (exit 2) instead of letting shape rules report violations against a name that no longer exists."""
+    import ast
+    import glob
+    import re
+    names = _ANCHOR_CACHE.get("names")
+    if names is None:
+        names = set()
+        for f in glob.glob(os.path.join(VERIF, "sa", "rules", "*.py")):
+            names.update(re.findall(r'selfattr\("([A-Za-z_][A-Za-z_0-9]*)"\)', open(f).read()))
+        _ANCHOR_CACHE["names"] = names
+    have = set()
+    for rel, tree in model.modules.items():
+        for n in ast.walk(tree):
+            if isinstance(n, ast.Attribute) and isinstance(n.ctx, ast.Store):
+                have.add(n.attr)
+            elif isinstance(n, ast.ClassDef):
+                for st in n.body:
+                    if isinstance(st, ast.Assign):
+                        for t in st.targets:
+                            if isinstance(t, ast.Name):
+                                have.add(t.id)
+                    elif isinstance(st, ast.FunctionDef):
+                        have.add(st.name)
+    # name-mangled private attributes are referred to without the class prefix
+    have |= {h.lstrip("_") for h in have if h.startswith("__")} | {"__" + h for h in have}
+    missing = sorted(n for n in names if n not in have and n.lstrip("_") not in have)
+    return ["anchor vanished: attribute self.%s is referred to by the rules but is no longer assigned anywhere in the package" % n for n in missing]
+
+
 def load_known():
     if not os.path.exists(KNOWN):
         return []
@@ -125,7 +159,10 @@ def run_property(prop, tier="quick", root="/repo", replay=None, quiet=False):
         mod = importlib.import_module("sa.rules." + prop)
         meta = getattr(mod, "META", {})
         ctx = Ctx(prop, tier, root)
-        mod.run(ctx)
+        gone = vanished_anchors(ctx.model)
+        ctx.errors.extend(gone)
+        if not gone:        # with an anchor gone the shape rules would only report noise: the run is analysis-broken, nothing else
+            mod.run(ctx)
         for rule, st in sorted(ctx.rule_stats.items()):
             if st["found"] < st["floor"]:
                 ctx.errors.append("rule %s matched %d instances, floor is %d (a rule that matches too few sites passes vacuously)" % (rule, st["found"], st["floor"]))
@@ -149,7 +186,9 @@ def run_property(prop, tier="quick", root="/repo", replay=None, quiet=False):
             m2 = importlib.import_module("sa.rules." + pr)
             c2 = Ctx(pr, "quick", root2)
             try:
-                m2.run(c2)
+                c2.errors.extend(vanished_anchors(c2.model))
+                if not c2.errors:
+                    m2.run(c2)
                 for rule, st in sorted(c2.rule_stats.items()):
                     if st["found"] < st["floor"]:
                         c2.errors.append("rule %s matched %d instances, floor is %d" % (rule, st["found"], st["floor"]))
